@@ -23,6 +23,9 @@ package par
 //@   ensures [C11.http-only-local] err == nil && responsible && c.Config.GetRedirectSecureChecker(ctx) == nil ==> fosite.IsRedirectURISecure(ctx, ar.GetRedirectURI())
 //@   ensures [~C17.uri-shape] err == nil && responsible ==> (exists key []byte :: len(key) == 32 && resp.GetRequestURI() == fmt.Sprintf("%s%s", prefix, b64.EncodeToString(key)))
 //@   ensures [C07.par-expiry-set] err == nil && responsible && ar.GetSession() != nil ==> ar.GetSession().GetExpiresAt(fosite.PushedAuthorizeRequestContext) == $now + cast(c.Config, fosite.PushedAuthorizeRequestConfigProvider).GetPushedAuthorizeContextLifespan(ctx)
+// the lifetime is recorded in the session BEFORE the request is handed to the store (a store that persists a snapshot must see it)
+//@   assert @call(CreatePARSession)#1 [C17.expiry-recorded-before-store] ar.GetSession() != nil ==> ar.GetSession().GetExpiresAt(fosite.PushedAuthorizeRequestContext) == $now + cast(c.Config, fosite.PushedAuthorizeRequestConfigProvider).GetPushedAuthorizeContextLifespan(ctx)
+//@   assert @call(CreatePARSession)#1 [C07.par-expiry-recorded-before-store] ar.GetSession() != nil ==> ar.GetSession().GetExpiresAt(fosite.PushedAuthorizeRequestContext) == $now + cast(c.Config, fosite.PushedAuthorizeRequestConfigProvider).GetPushedAuthorizeContextLifespan(ctx)
 //@   ensures [C17.fault-refuses] faults != old(faults) ==> err != nil
 //@   ensures [C17.refusal-stores-nothing] err != nil ==> par_exists == old(par_exists)
 //@   invariant loop#1 [C17.push-validates-as-authorize] $i <= len(ar.GetRequestedScopes()) && (forall j int :: 0 <= j && j < $i ==> call(c.Config.GetScopeStrategy(ctx), client.GetScopes(), ar.GetRequestedScopes()[j]))
